@@ -49,7 +49,12 @@ let from_column_data cd rows =
        then ICNullableInt (rows, (enumerate Z0 xs))
        else ICInt xs)
   | CDSparseI64 l -> Some (ICNullableInt (rows, l))
-  | CDString ss -> if Z.eqb (zlen ss) rows then Some (ICStr ss) else None
+  | CDString ss ->
+    if Z.ltb (zlen ss) rows
+    then Some (ICMixed
+           (app (map (fun x -> RStr x) ss)
+             (repeat RNull (Z.to_nat (Z.sub rows (zlen ss))))))
+    else if Z.eqb (zlen ss) rows then Some (ICStr ss) else None
   | CDMixed vs -> Some (ICMixed vs)
 
 (** val sparse_ops :
@@ -86,25 +91,27 @@ type batch_item = coldata option * coq_Z
 let rec col_ops created before = function
 | [] -> Some []
 | b :: r ->
-  let (o, rows) = b in
-  (match o with
-   | Some cd ->
-     (match from_column_data cd rows with
-      | Some ic ->
-        (match ops_of_input ic with
-         | Some o1 ->
-           (match col_ops true (Z.add before rows) r with
-            | Some o2 ->
-              Some
-                (app (if created then [] else (PNulls before) :: [])
-                  (app o1 o2))
-            | None -> None)
-         | None -> None)
-      | None -> None)
-   | None ->
-     (match col_ops created (Z.add before rows) r with
-      | Some ops -> Some (if created then (PNulls rows) :: ops else ops)
-      | None -> None))
+  let (cd, rows) = b in
+  if Z.eqb rows Z0
+  then col_ops created before r
+  else (match cd with
+        | Some cd0 ->
+          (match from_column_data cd0 rows with
+           | Some ic ->
+             (match ops_of_input ic with
+              | Some o1 ->
+                (match col_ops true (Z.add before rows) r with
+                 | Some o2 ->
+                   Some
+                     (app (if created then [] else (PNulls before) :: [])
+                       (app o1 o2))
+                 | None -> None)
+              | None -> None)
+           | None -> None)
+        | None ->
+          (match col_ops created (Z.add before rows) r with
+           | Some ops -> Some (if created then (PNulls rows) :: ops else ops)
+           | None -> None))
 
 type kind =
 | KEmpty
